@@ -1,6 +1,6 @@
 use std::fmt;
 
-use syn::Lit;
+use syn::{Expr, Lit};
 
 use crate::ast::NestedMeta;
 use crate::{FromMeta, Result};
@@ -143,6 +143,10 @@ impl<T: FromMeta> FromMeta for Override<T> {
 
     fn from_list(items: &[NestedMeta]) -> Result<Self> {
         Ok(Explicit(FromMeta::from_list(items)?))
+    }
+
+    fn from_expr(expr: &Expr) -> Result<Self> {
+        Ok(Explicit(FromMeta::from_expr(expr)?))
     }
 
     fn from_value(lit: &Lit) -> Result<Self> {
